@@ -8,7 +8,8 @@ class C18(RecorderProp):
     RULE = ('random operations terminating by return / ordinary exception / interrupt (KeyboardInterrupt, SystemExit, '
             'GeneratorExit) at every step incl. inside input and output bodies, after 0-3 captured outputs, on instance and '
             'class-level operations, with extractors that succeed, raise, return None, an int or a half-valid iterable, scripted '
-            'clock; saved metadata (class, exception flag, duration, incomplete flag, user keys) compared with the run; default '
+            'clock, in local time zones UTC / JST-9 / EST5EDT / IST-5:30; saved metadata (class, exception flag, duration, incomplete flag, user keys, '
+            'timestamp = UTC wall time) compared with the run; default '
             'lookup (skip incomplete) compared with the saved complete recordings; non-trivial = a recording was saved; '
             'distinct = distinct canonical case')
     OPTS = dict(ALL_OPTS, extractors=True, interrupts=True, sampling=False, faults=False, control=False, play_ratio=0.0,
@@ -29,6 +30,8 @@ class C18(RecorderProp):
                                                'junkpairs', 'junknone'])
         if case.get('cassette') == 'memory':
             case['default_lookup'] = True
+        # the service's local time zone: the recording timestamp is UTC wherever it runs
+        case['tz'] = rng.choice(['JST-9', 'UTC', 'EST5EDT', 'IST-5:30', 'JST-9'])
         return case
 
     def oracle(self, case, impl):
@@ -52,6 +55,10 @@ class C18(RecorderProp):
             want_duration = run['clock'][1] - run['clock'][0]
             if md['duration'] != want_duration or want_duration < 0:
                 fails.append('run %d: duration %r, the clock measured %r' % (i, md['duration'], want_duration))
+            at = r.get('_recorded_at')
+            if at is not None and (at[1] is None or abs(at[1]) > 600):
+                fails.append('run %d (local time zone %s): the recording timestamp %s is %s the UTC time of the run'
+                             % (i, case.get('tz'), at[0], 'not a timestamp, let alone' if at[1] is None else '%+.0f s off' % at[1]))
             if md['incomplete'] != interrupted:
                 fails.append('run %d: incomplete=%r but the run ended %r' % (i, md['incomplete'], r['end']))
             want_flag = None if interrupted else (r['end'][0] == 'exc')
